@@ -13,7 +13,7 @@
    are pairwise distinct. *)
 From Coq Require Import List ZArith NArith Bool Permutation.
 Import ListNotations.
-From SygmaV Require Import Model.C16 Proofs.C16.
+From SygmaV Require Import Model.C16 Proofs.C16 Proofs.C16_Exec.
 Local Open Scope Z_scope.
 
 (* One output per proposal, in order, paying exactly its amount to (the script of) its recipient. *)
@@ -124,6 +124,71 @@ Theorem C16_tx_ok_covers : forall ps us bridge ins outs quote,
 Proof. exact tx_ok_covers. Qed.
 Print Assumptions C16_tx_ok_covers.
 
+(* ---- from the deposit message to the proposal (ERC20MessageHandler) ----
+   The proposal amount is the message amount (18 decimals) divided by 10^10, rounded down, exactly -
+   for every message amount whose quotient fits a uint64 (all amounts below 2^64 * 10^10 base units;
+   the Bitcoin supply is 2.1e25): so the output that pays the proposal pays the deposited amount. *)
+Theorem C16_msg_amount_exact : forall m,
+  0 <= m < msg_limit ->
+  handler_amount m = m / ten10 /\
+  handler_amount m * ten10 <= m < handler_amount m * ten10 + ten10 /\
+  0 <= handler_amount m < two64.
+Proof. exact handler_amount_exact. Qed.
+Print Assumptions C16_msg_amount_exact.
+
+(* as coded beyond that: big.Int.Uint64() keeps the low 64 bits of the quotient *)
+Theorem C16_msg_amount_beyond_as_coded :
+  handler_amount msg_limit = 0 /\ msg_limit / ten10 = two64 /\
+  forall m, 0 <= m -> handler_amount m = (m / ten10) mod two64.
+Proof. exact handler_amount_wraps. Qed.
+Print Assumptions C16_msg_amount_beyond_as_coded.
+
+(* the judge of the message step accepts the model and demands the exact quotient below the limit *)
+Theorem C16_amounts_ok_model : forall ms,
+  msgs_wf ms = true -> amounts_ok ms (map handler_amount ms) = true.
+Proof. exact amounts_ok_model. Qed.
+Print Assumptions C16_amounts_ok_model.
+
+Theorem C16_amounts_ok_sound : forall ms impl,
+  amounts_ok ms impl = true ->
+  length ms = length impl /\
+  Forall (fun ma => fst ma < msg_limit -> snd ma = fst ma / ten10) (combine ms impl).
+Proof. exact amounts_ok_sound. Qed.
+Print Assumptions C16_amounts_ok_sound.
+
+(* ---- Executor.Execute: one delivery, several resources ----
+   The per-resource grouping is a partition of the delivery: the resources of the groups are pairwise
+   distinct, the group of resource r holds exactly the proposals of r (in delivery order, never
+   empty), and every proposal is in the group of its resource.  All deliveries. *)
+Theorem C16_groups_partition : forall ps,
+  NoDup (map fst (groups ps)) /\
+  (forall r ms, In (r, ms) (groups ps) -> ms = members r ps /\ ms <> []) /\
+  (forall p, In p ps -> exists ms, In (e_rid p, ms) (groups ps) /\ In (e_nonce p) ms).
+Proof. exact groups_partition. Qed.
+Print Assumptions C16_groups_partition.
+
+(* every proposal occurs in the groups as often as in the delivery; nothing else occurs *)
+Theorem C16_groups_count : forall ps n,
+  occ n (groups ps) = count_occ N.eq_dec (map e_nonce ps) n /\ total (groups ps) = length ps.
+Proof. exact (fun ps n => conj (occ_groups n ps) (total_groups ps)). Qed.
+Print Assumptions C16_groups_count.
+
+(* the judge applied to every observed run of Execute (per transaction: resource it was built for,
+   deposit nonces it pays) accepts the model, and whatever it accepts pays every proposal of the
+   delivery exactly once, in the transaction of its resource, and pays nothing else *)
+Theorem C16_exec_ok_model : forall ps, nonces_distinct ps = true -> exec_ok ps (groups ps) = true.
+Proof. exact exec_ok_model. Qed.
+Print Assumptions C16_exec_ok_model.
+
+Theorem C16_exec_ok_sound : forall ps obs,
+  exec_ok ps obs = true ->
+  (forall p, In p ps ->
+     occ (e_nonce p) obs = 1%nat /\
+     exists g, In g obs /\ fst g = e_rid p /\ In (e_nonce p) (snd g)) /\
+  total obs = length ps.
+Proof. exact exec_ok_sound. Qed.
+Print Assumptions C16_exec_ok_sound.
+
 (* The code as found (sufficiency test without the fee; ties of (time, txid) left in listing order)
    violates conservation / non-negativity and order independence. *)
 Theorem C16_old_conservation_refuted :
@@ -155,3 +220,17 @@ Example C16_nonvacuous :
   raw_tx ex_props [mkUtxo w_id 0 4909 1700000000] 3 w_bridge [81; 109]%N true = Err /\
   (exists t, raw_tx ex_props [mkUtxo w_id 0 4910 1700000000] 3 w_bridge [81; 109]%N true = Tx t /\ length (t_outs t) = 3%nat).
 Proof. vm_compute. repeat split. eexists. split; reflexivity. Qed.
+
+(* Non-vacuity of the round-3 theorems: a delivery over three resources, its groups; two goroutines
+   that both build the last group (shared loop variable) are rejected; message amounts around 2^64
+   base units and a handler that truncates to 64 bits before dividing is rejected. *)
+Example C16_nonvacuous_exec :
+  nonces_distinct w_delivery = true /\
+  groups w_delivery = [(1, [0; 2]); (2, [1]); (3, [3])]%N /\
+  exec_ok w_delivery [(3, [3]); (3, [3]); (3, [3])]%N = false /\
+  exec_ok w_delivery [(1, [0; 2]); (1, [1]); (3, [3])]%N = false /\
+  msgs_wf [two64 - 1; two64; two64 + ten10; 21000000 * 100000000 * ten10] = true /\
+  map handler_amount [two64 - 1; two64; two64 + ten10; 21000000 * 100000000 * ten10]
+    = [1844674407; 1844674407; 1844674408; 2100000000000000] /\
+  amounts_ok [two64 + ten10] [1] = false.
+Proof. vm_compute. repeat split. Qed.
